@@ -155,6 +155,62 @@ where
         };
         ctx.check("C12", "typed accessor re-serialises to the PURL's checksum text", inst, again.as_deref() == Some(text), &json!(text), &json!(again));
     }
+    // C04 on a re-build after an edit of the handed-out qualifiers: a value blanked through IndexMut, get_mut or
+    // iter_mut on the builder's public parts is dropped by build() like any other empty value
+    // (not for user-supplied shapes, whose hook edits the parts again on every build)
+    if !p.qualifiers().is_empty() && origin != "shape" {
+        let keys: Vec<String> = p.qualifiers().iter().map(|(k, _)| k.as_str().to_owned()).collect();
+        let r = catch_unwind(AssertUnwindSafe(|| {
+            let mut ok = true;
+            for (i, key) in keys.iter().enumerate() {
+                let mut b = p.clone().into_builder();
+                match i % 3 {
+                    0 => b.parts.qualifiers[key.as_str()] = "".into(),
+                    1 => {
+                        if let Some(v) = b.parts.qualifiers.get_mut(key.as_str()) {
+                            *v = "".into();
+                        }
+                    },
+                    _ => {
+                        for (k, v) in b.parts.qualifiers.iter_mut() {
+                            if k.as_str() == key {
+                                *v = "".into();
+                            }
+                        }
+                    },
+                }
+                match b.build() {
+                    Ok(q) => ok &= q.qualifiers().get(key.as_str()).is_none() && q.qualifiers().len() == keys.len() - 1 && q.qualifiers().iter().all(|(_, v)| !v.is_empty()),
+                    Err(_) => ok = false,
+                }
+            }
+            ok
+        }));
+        ctx.check("C04", "a qualifier blanked in the builder of a handed-out PURL (IndexMut / get_mut / iter_mut) is dropped by build()", inst,
+                  r.unwrap_or(false), &null, obs);
+    }
+    // C03 after a failed write: Display into a sink that gives up part-way, then to_string() again
+    if let Some(c) = display(p) {
+        struct Short(usize);
+        impl std::fmt::Write for Short {
+            fn write_str(&mut self, s: &str) -> std::fmt::Result {
+                if s.len() > self.0 {
+                    self.0 = 0;
+                    Err(std::fmt::Error)
+                } else {
+                    self.0 -= s.len();
+                    Ok(())
+                }
+            }
+        }
+        let again = catch_unwind(AssertUnwindSafe(|| {
+            for room in [0usize, 3, c.len() / 2, c.len().saturating_sub(1)] {
+                let _ = std::fmt::Write::write_fmt(&mut Short(room), format_args!("{}", p));
+            }
+            p.to_string()
+        }));
+        ctx.check("C03", "to_string() is the same after writes into a sink that failed part-way", inst, again.as_ref().ok() == Some(&c), &json!(c), &json!(again.ok()));
+    }
     // accessors never report an empty string
     let acc_ok = p.namespace() != Some("") && p.version() != Some("") && p.subpath() != Some("");
     ctx.check("C04", "optional accessors never Some(\"\")", inst, acc_ok, &null, obs);
@@ -808,6 +864,28 @@ fn pairs_of(v: &Value) -> Vec<(String, String)> {
     v.as_array().map(|a| a.iter().map(|q| (from_cps(&q[0]), from_cps(&q[1]))).collect()).unwrap_or_default()
 }
 
+/// A caller's own typed qualifier whose declared key is valid but not lower-case.
+pub struct BuildTag(pub String);
+impl purl::qualifiers::well_known::KnownQualifierKey for BuildTag {
+    const KEY: &'static str = "Build_Tag";
+}
+impl From<BuildTag> for SmallStr {
+    fn from(v: BuildTag) -> Self {
+        v.0.into()
+    }
+}
+impl<'a> From<&'a str> for BuildTag {
+    fn from(v: &'a str) -> Self {
+        BuildTag(v.to_owned())
+    }
+}
+impl std::ops::Deref for BuildTag {
+    type Target = str;
+    fn deref(&self) -> &str {
+        &self.0
+    }
+}
+
 /// A typed qualifier whose declared key is invalid: inserting it is the documented panic.
 pub struct BadKey(pub String);
 impl purl::qualifiers::well_known::KnownQualifierKey for BadKey {
@@ -816,6 +894,15 @@ impl purl::qualifiers::well_known::KnownQualifierKey for BadKey {
 impl From<BadKey> for SmallStr {
     fn from(v: BadKey) -> Self {
         v.0.into()
+    }
+}
+
+/// Result of a retain call: the number of predicate calls, provided they came in strictly ascending key order.
+fn visited(seen: Vec<String>) -> Value {
+    if seen.windows(2).all(|w| w[0] < w[1]) {
+        json!({"calls": seen.len()})
+    } else {
+        json!({"calls": seen.len(), "visited_out_of_order": seen})
     }
 }
 
@@ -916,21 +1003,23 @@ pub fn apply_qop(q: &mut purl::Qualifiers, op: &Value) -> Value {
             Ok(Entry::Vacant(e)) => json!({"vac": true, "v": cps(e.insert(v))}),
             _ => json!({"vac": false}),
         },
+        // a reference map visits its entries in ascending key order: a predicate with state (a counter, a set of
+        // values seen) depends on it, so the order of the calls is part of the result
         "retain_nonempty" => {
-            let mut calls = 0;
-            q.retain(|_, v| {
-                calls += 1;
+            let mut seen: Vec<String> = Vec::new();
+            q.retain(|key, v| {
+                seen.push(key.as_str().to_owned());
                 !v.is_empty()
             });
-            json!({"calls": calls})
+            visited(seen)
         },
         "retain_key_ne" => {
-            let mut calls = 0;
+            let mut seen: Vec<String> = Vec::new();
             q.retain(|key, _| {
-                calls += 1;
+                seen.push(key.as_str().to_owned());
                 key != k.as_str()
             });
-            json!({"calls": calls})
+            visited(seen)
         },
         "count_keys_lt" => {
             let n = q.iter().filter(|(key, _)| **key < *k.as_str()).count();
@@ -943,13 +1032,13 @@ pub fn apply_qop(q: &mut purl::Qualifiers, op: &Value) -> Value {
             }
         },
         "retain_mut_set" => {
-            let mut calls = 0;
-            q.retain_mut(|_, v| {
-                calls += 1;
+            let mut seen: Vec<String> = Vec::new();
+            q.retain_mut(|key, v| {
+                seen.push(key.as_str().to_owned());
                 *v = k.as_str().into();
                 true
             });
-            json!({"calls": calls})
+            visited(seen)
         },
         "iter_mut_set" => {
             // IterMut from both ends alternately (and once through IntoIterator for &mut), with exact size hints
@@ -1039,6 +1128,7 @@ pub fn apply_qop(q: &mut purl::Qualifiers, op: &Value) -> Value {
                 "gem::Platform" => typed!(gem::Platform),
                 "maven::Classifier" => typed!(maven::Classifier),
                 "maven::Type" => typed!(maven::Type),
+                "user::BuildTag" => typed!(BuildTag),
                 other => {
                     eprintln!("unknown typed qualifier {:?}", other);
                     std::process::exit(2);
@@ -1383,6 +1473,12 @@ pub fn run_shape(ctx: &mut Ctx, case: &Value) {
         let s = from_cps(&input["s"]);
         shapes::log(json!({"ev": "begin", "entry": "parse", "s": input["s"], "shape": shape_json}));
         catch_unwind(AssertUnwindSafe(|| GenericPurl::<TestShape>::from_str(&s)))
+    } else if input["entry"] == json!("new") {
+        // GenericPurl::new is a build() from a fresh builder: the hook and the generic checks run all the same
+        shapes::log(json!({"ev": "begin", "entry": "build", "st": input["st"], "parts": input["parts"], "shape": shape_json}));
+        let t = TestShape { ty: from_cps(&input["st"]) };
+        let name = from_cps(&input["parts"]["name"]);
+        catch_unwind(AssertUnwindSafe(|| GenericPurl::<TestShape>::new(t, name)))
     } else {
         shapes::log(json!({"ev": "begin", "entry": "build", "st": input["st"], "parts": input["parts"], "shape": shape_json}));
         let t = TestShape { ty: from_cps(&input["st"]) };
